@@ -1931,7 +1931,8 @@ func funcLocaltime(v any) any {
 }
 
 func epochToArray(v float64, loc *time.Location) []any {
-	t := time.Unix(int64(v), int64((v-math.Floor(v))*1e9)).In(loc)
+	s := math.Floor(v)
+	t := time.Unix(int64(s), int64((v-s)*1e9)).In(loc)
 	return []any{
 		t.Year(),
 		int(t.Month()) - 1,
